@@ -24,6 +24,20 @@ type harnessReply struct {
 	Error    string         `json:"error"`
 }
 
+// runHarnessRaw returns the raw JSON of the harness's GOVC-RESULT line.
+func runHarnessRaw(req map[string]any) (*harnessReply, string, error) {
+	r, txt, err := runHarness(req)
+	if err != nil {
+		return nil, txt, err
+	}
+	for _, line := range strings.Split(txt, "\n") {
+		if strings.HasPrefix(line, "GOVC-RESULT ") {
+			return r, strings.TrimPrefix(line, "GOVC-RESULT "), nil
+		}
+	}
+	return r, txt, fmt.Errorf("no result line")
+}
+
 func runHarness(req map[string]any) (*harnessReply, string, error) {
 	dir, err := os.MkdirTemp("", "govc-replay")
 	if err != nil {
